@@ -1,166 +1,394 @@
 import Slock.Proofs.ValueOps
-/-! Crash-freedom lemmas for M-VALUE over ARBITRARY request bytes (no canonical-frame assumption). -/
+/-! Crash-freedom of M-VALUE over ARBITRARY request bytes: the invariant `CellSane` (every stored cell has its 6 header
+    bytes and a property header that fits) is established by the parser's refusal rule and preserved by every operation,
+    and under it no operation panics. -/
 namespace Slock.Value
 
-/-- the decoded view of raw frame bytes (total; only used for frames of ≥ 6 bytes) -/
-def cmdOfBytes (frame : Bytes) : Cmd :=
-  ⟨frame, [], (frame.getD 4 0).toNat / 64, (frame.getD 4 0).toNat % 64, frame.getD 5 0⟩
+/-- the property header `hdr` (bytes [6, valueOffset)) is what the flag byte announces -/
+def HdrOK (fl : UInt8) (hdr : Bytes) : Prop :=
+  (hasFlag fl fPROP = true ∧ ∃ a b rest, hdr = a :: b :: rest ∧ a.toNat + 256 * b.toNat = rest.length)
+  ∨ (hasFlag fl fPROP = false ∧ hdr = [])
 
-theorem idx_ok (s : Site) (l : Bytes) (i : Nat) (h : i < l.length) : idx s l i = .ok (l.getD i 0) := by
-  simp [idx, List.getD, List.getElem?_eq_getElem h]
+/-- `d = [4 bytes | b4 | fl | hdr | v]` with a fitting header -/
+structure Shape (d : Bytes) (fl : UInt8) (hdr v : Bytes) : Prop where
+  ex : ∃ a b c e b4, d = a :: b :: c :: e :: b4 :: fl :: (hdr ++ v)
+  ok : HdrOK fl hdr
 
-theorem idx_panic (s : Site) (l : Bytes) (i : Nat) (h : l.length ≤ i) : idx s l i = .error ⟨s⟩ := by
-  simp [idx, List.getElem?_eq_none h, panic]
+theorem len4 (x : Bytes) (h : x.length = 4) : ∃ a b c e, x = [a, b, c, e] := by
+  rcases x with _ | ⟨a, _ | ⟨b, _ | ⟨c, _ | ⟨e, _ | ⟨f, t⟩⟩⟩⟩⟩ <;> simp at h
+  exact ⟨a, b, c, e, rfl⟩
 
-theorem fromOriginBytes_ok (frame : Bytes) (h : 6 ≤ frame.length) : fromOriginBytes frame [] = .ok (cmdOfBytes frame) := by
-  simp [fromOriginBytes, idx_ok _ frame 4 (by omega), idx_ok _ frame 5 (by omega), bind, Except.bind, pure, Except.pure, cmdOfBytes]
+theorem shape_of (x4 : Bytes) (b4 fl : UInt8) (hdr v d : Bytes) (h4 : x4.length = 4)
+    (hd : d = x4 ++ b4 :: fl :: (hdr ++ v)) (hok : HdrOK fl hdr) : Shape d fl hdr v := by
+  obtain ⟨a, b, c, e, rfl⟩ := len4 x4 h4
+  exact ⟨⟨a, b, c, e, b4, by simpa using hd⟩, hok⟩
 
-theorem fromOriginBytes_short (frame ex : Bytes) (h : frame.length < 6) : isPanic (fromOriginBytes frame ex) = true := by
-  by_cases h4 : frame.length ≤ 4
-  · simp [fromOriginBytes, idx_panic _ frame 4 h4, bind, Except.bind, isPanic]
-  · simp [fromOriginBytes, idx_ok _ frame 4 (by omega), idx_panic _ frame 5 (by omega), bind, Except.bind, isPanic]
+theorem hdrOK_flag (fl fl' : UInt8) (hdr : Bytes) (h : hasFlag fl' fPROP = hasFlag fl fPROP) (hok : HdrOK fl hdr) :
+    HdrOK fl' hdr := by
+  rcases hok with ⟨h1, h2⟩ | ⟨h1, h2⟩
+  · exact Or.inl ⟨by rw [h, h1], h2⟩
+  · exact Or.inr ⟨by rw [h, h1], h2⟩
 
-/-- single (non-PIPELINE) frames of at least 6 bytes: gate, then `procOp` -/
-theorem processFrame_single (cx : Ctx) (cur : Option Cell) (frame : Bytes) (h6 : 6 ≤ frame.length)
-    (hp : (cmdOfBytes frame).ctype ≠ PIPELINE) :
-    processFrame cx cur frame = if gate cx (cmdOfBytes frame) then procOp cx cur (cmdOfBytes frame) else .ok cur := by
-  simp only [processFrame, fromOriginBytes_ok frame h6, bind, Except.bind, proc]
-  cases gate cx (cmdOfBytes frame) <;> simp [hp, pure, Except.pure]
+theorem Shape.length {d fl hdr v} (s : Shape d fl hdr v) : d.length = 6 + hdr.length + v.length := by
+  obtain ⟨a, b, c, e, b4, hd⟩ := s.ex; rw [hd]; simp
+  omega
 
-/-- the value offset is computable and lies inside the frame -/
-def OffsetOK (c : Cmd) : Prop := ∃ off, cmdOff c = .ok off ∧ off ≤ c.data.length
+theorem Shape.idx5 {d fl hdr v} (s : Shape d fl hdr v) (site : Site) : idx site d 5 = .ok fl := by
+  obtain ⟨a, b, c, e, b4, hd⟩ := s.ex; rw [hd]; rfl
 
-theorem offsetOK_noprop (c : Cmd) (h : hasFlag c.flag fPROP = false) (h6 : 6 ≤ c.data.length) : OffsetOK c :=
-  ⟨6, by simp [cmdOff, h, pure, Except.pure], h6⟩
+theorem Shape.getD5 {d fl hdr v} (s : Shape d fl hdr v) : d.getD 5 0 = fl := by
+  obtain ⟨a, b, c, e, b4, hd⟩ := s.ex; rw [hd]; rfl
 
-theorem cmdOff_ok_of_len (c : Cmd) (h8 : 8 ≤ c.data.length) : ∃ off, cmdOff c = .ok off := by
-  unfold cmdOff
-  cases hasFlag c.flag fPROP with
-  | false => exact ⟨6, rfl⟩
+theorem Shape.drop6 {d fl hdr v} (s : Shape d fl hdr v) : d.drop 6 = hdr ++ v := by
+  obtain ⟨a, b, c, e, b4, hd⟩ := s.ex; rw [hd]; rfl
+
+theorem Shape.take4 {d fl hdr v} (s : Shape d fl hdr v) : (d.take 4).length = 4 := by
+  obtain ⟨a, b, c, e, b4, hd⟩ := s.ex; rw [hd]; rfl
+
+theorem Shape.drop5 {d fl hdr v} (s : Shape d fl hdr v) : d.drop 5 = fl :: (hdr ++ v) := by
+  obtain ⟨a, b, c, e, b4, hd⟩ := s.ex; rw [hd]; rfl
+
+theorem Shape.drop4 {d fl hdr v} (s : Shape d fl hdr v) (ex : Bytes) :
+    ∃ b4, (d ++ ex).drop 4 = b4 :: fl :: (hdr ++ (v ++ ex)) := by
+  obtain ⟨a, b, c, e, b4, hd⟩ := s.ex; rw [hd]; exact ⟨b4, by simp⟩
+
+theorem Shape.hdr {d fl hdr v} (s : Shape d fl hdr v) : (d.drop 6).take hdr.length = hdr := by
+  rw [s.drop6]; exact take_left' _ _ _ rfl
+
+theorem Shape.dropOff {d fl hdr v} (s : Shape d fl hdr v) (n : Nat) : d.drop (6 + hdr.length + n) = v.drop n := by
+  rw [Nat.add_assoc, ← List.drop_drop, s.drop6, ← List.drop_drop, drop_left' _ _ _ rfl]
+
+theorem Shape.cellOff {d fl hdr v} (s : Shape d fl hdr v) : cellOff d = 6 + hdr.length := by
+  obtain ⟨a, b, c, e, b4, hd⟩ := s.ex
+  rcases s.ok with ⟨h1, a', b', rest, hh, hl⟩ | ⟨h1, hh⟩
+  · subst hd; subst hh
+    have : ¬ (a :: b :: c :: e :: b4 :: fl :: (a' :: b' :: rest ++ v)).length < 8 := by simp
+    unfold Slock.Value.cellOff
+    rw [if_neg this]
+    simp [h1]; omega
+  · subst hd; subst hh
+    unfold Slock.Value.cellOff
+    simp [h1]
+
+/-- what the parser lets through -/
+def CmdSane (c : Cmd) : Prop := ∃ hdr v, Shape c.data c.flag hdr v ∧ cmdOff c = .ok (6 + hdr.length)
+
+def CellSane : Option Cell → Prop
+  | none => True
+  | some x => ∃ fl hdr v, Shape x.data fl hdr v
+
+theorem parseFrame_sane (d ex : Bytes) (c : Cmd) (h : parseFrame d ex = some c) :
+    c.data = d ∧ c.extra = ex ∧ CmdSane c := by
+  rcases d with _ | ⟨a, _ | ⟨b, _ | ⟨c3, _ | ⟨e, _ | ⟨b4, _ | ⟨b5, t⟩⟩⟩⟩⟩⟩ <;> simp [parseFrame] at h
+  cases hp : hasFlag b5 fPROP with
+  | false =>
+    simp [hp] at h; subst h
+    refine ⟨rfl, rfl, [], t, ⟨⟨a, b, c3, e, b4, rfl⟩, Or.inr ⟨hp, rfl⟩⟩, ?_⟩
+    simp [cmdOff, hp, pure, Except.pure]
   | true =>
-    simp [idx_ok _ c.data 6 (by omega), idx_ok _ c.data 7 (by omega), bind, Except.bind, pure, Except.pure]
+    simp only [hp, if_true] at h
+    rcases t with _ | ⟨a', _ | ⟨b', rest⟩⟩ <;> simp at h
+    obtain ⟨hle, hc⟩ := h; subst hc
+    have hn : a'.toNat + 256 * b'.toNat ≤ rest.length := by omega
+    refine ⟨rfl, rfl, a' :: b' :: rest.take (a'.toNat + 256 * b'.toNat), rest.drop (a'.toNat + 256 * b'.toNat), ⟨⟨a, b, c3, e, b4, by simp⟩,
+      Or.inl ⟨hp, a', b', _, rfl, by simp [List.length_take]; omega⟩⟩, ?_⟩
+    simp [cmdOff, hp, idx, bind, Except.bind, pure, Except.pure, List.length_take]; omega
 
-theorem opAppend_no_panic (cx : Ctx) (cur : Option Cell) (c : Cmd) (ho : OffsetOK c) (h5 : 5 ≤ c.data.length)
-    (hcell : ∀ x, cur = some x → 6 ≤ x.data.length) : isPanic (opAppend cx cur c) = false := by
-  obtain ⟨off, hoff, hle⟩ := ho
-  have hfresh : isPanic (if c.data.length < 5 then (panic .appendHdr : M (Option Cell)) else do
+
+/-- the call returns and the new cell is sane -/
+def Good (r : M (Option Cell)) : Prop := ∃ cur', r = .ok cur' ∧ CellSane cur'
+
+theorem good_ok (cur : Option Cell) (h : CellSane cur) : Good (.ok cur) := ⟨cur, rfl, h⟩
+
+theorem good_data (fl : UInt8) (hdr v d ex : Bytes) (ct : Nat) (aof : Bool) (s : Shape d fl hdr v) :
+    Good (.ok (some ⟨d, ex, ct, aof⟩)) := ⟨_, rfl, fl, hdr, v, s⟩
+
+theorem unsetCell_sane (aof : Bool) : CellSane (some (unsetCell aof)) :=
+  ⟨0, [], [], ⟨⟨2, 0, 0, 0, 1, rfl⟩, Or.inr ⟨by decide, rfl⟩⟩⟩
+
+theorem good_of_eq (d ex : Bytes) (ct : Nat) (aof : Bool) (x4 : Bytes) (b4 fl : UInt8) (hdr v : Bytes)
+    (h4 : x4.length = 4) (hok : HdrOK fl hdr) (hd : d = x4 ++ b4 :: fl :: (hdr ++ v)) : Good (.ok (some ⟨d, ex, ct, aof⟩)) :=
+  good_data fl hdr v d ex ct aof (shape_of x4 b4 fl hdr v d h4 hd hok)
+
+theorem opSet_good (cx : Ctx) (cur : Option Cell) (c : Cmd) (hc : CmdSane c) (hcur : CellSane cur) :
+    Good (.ok (opSet cx cur c)) := by
+  obtain ⟨hdr, v, s, _⟩ := hc
+  cases cur with
+  | none => simp only [opSet, Bool.and_false, Bool.false_eq_true, if_false]; exact good_data _ _ _ _ _ _ _ s
+  | some k =>
+    simp only [opSet]
+    split
+    · exact good_ok _ hcur
+    · exact good_data _ _ _ _ _ _ _ s
+
+theorem opUnset_good (cx : Ctx) (cur : Option Cell) (hcur : CellSane cur) : Good (.ok (opUnset cx cur)) := by
+  unfold opUnset
+  cases cur with
+  | none => exact good_ok _ trivial
+  | some k =>
+    simp only
+    split
+    · exact good_ok _ hcur
+    · exact good_ok _ (unsetCell_sane _)
+
+theorem opExecute_good (cx : Ctx) (cur : Option Cell) (c : Cmd) (hc : CmdSane c) (hcur : CellSane cur) :
+    Good (opExecute cx cur c) := by
+  obtain ⟨hdr, v, s, hoff⟩ := hc
+  unfold opExecute
+  split
+  · simp only [hoff, bind, Except.bind]; exact good_ok _ hcur
+  · exact good_ok _ hcur
+
+theorem opIncr_good (cx : Ctx) (cur : Option Cell) (c : Cmd) (hc : CmdSane c) (hcur : CellSane cur) :
+    Good (opIncr cx cur c) := by
+  obtain ⟨hdr, v, s, hoff⟩ := hc
+  simp only [opIncr, hoff, bind, Except.bind]
+  by_cases h8 : c.data.length = 6 + hdr.length + 8
+  · rw [if_pos h8, s.idx5]
+    simp only [pure, Except.pure]
+    have e1 : 6 + hdr.length - 6 = hdr.length := by omega
+    rw [e1, s.hdr]
+    exact good_of_eq _ _ _ _ (c.data.take 4) 0 (c.flag ||| fNUMBER) hdr _ s.take4
+      (hdrOK_flag _ _ _ (flag_or_num_prop _) s.ok) (by simp only [List.append_assoc]; rfl)
+  · rw [if_neg h8]
+    cases cur with
+    | none =>
+      simp only [Nat.le_refl, if_true, pure, Except.pure]
+      exact good_data 1 [] (le64 _) _ _ _ _ ⟨⟨10, 0, 0, 0, 0, rfl⟩, Or.inr ⟨by decide, rfl⟩⟩
+    | some x =>
+      obtain ⟨fl', hdr', v', s'⟩ := hcur
+      simp only [s'.cellOff]
+      by_cases ho : 6 + hdr'.length ≤ 6
+      · rw [if_pos ho]
+        exact good_data 1 [] (le64 _) _ _ _ _ ⟨⟨10, 0, 0, 0, 0, rfl⟩, Or.inr ⟨by decide, rfl⟩⟩
+      · rw [if_neg ho, s'.idx5]
+        simp only [pure, Except.pure]
+        have e1 : 6 + hdr'.length - 6 = hdr'.length := by omega
+        rw [e1, s'.drop6, padTake_left]
+        exact good_of_eq _ _ _ _ (le32 _) 0 (fl' ||| fNUMBER) hdr' _ (le32_length _)
+          (hdrOK_flag _ _ _ (flag_or_num_prop _) s'.ok) (by simp only [List.append_assoc]; rfl)
+
+
+theorem opAppend_good (cx : Ctx) (cur : Option Cell) (c : Cmd) (hc : CmdSane c) (hcur : CellSane cur) :
+    Good (opAppend cx cur c) := by
+  obtain ⟨hdr, v, s, hoff⟩ := hc
+  have hlen := s.length
+  have hfresh : Good (if c.data.length < 5 then (panic .appendHdr : M (Option Cell)) else do
         if cx.requireRecover then
           let _ ← cmdOff c
-        pure (some ⟨c.data.take 4 ++ [0] ++ c.data.drop 5, c.extra, APPEND, cx.fromAof⟩)) = false := by
+        pure (some ⟨c.data.take 4 ++ [0] ++ c.data.drop 5, c.extra, APPEND, cx.fromAof⟩)) := by
     rw [if_neg (by omega)]
-    cases cx.requireRecover <;> simp [hoff, bind, Except.bind, pure, Except.pure, isPanic]
+    have hg : Good (.ok (some ⟨c.data.take 4 ++ [0] ++ c.data.drop 5, c.extra, APPEND, cx.fromAof⟩)) := by
+      rw [s.drop5]
+      exact good_of_eq _ _ _ _ (c.data.take 4) 0 c.flag hdr v s.take4 s.ok (by simp only [List.append_assoc]; rfl)
+    cases cx.requireRecover <;> simpa [hoff, bind, Except.bind, pure, Except.pure] using hg
   cases cur with
   | none => simpa [opAppend] using hfresh
   | some x =>
-    have hx := hcell x rfl
+    obtain ⟨fl', hdr', v', s'⟩ := hcur
+    have hlen' := s'.length
     cases hd : x.hasData with
     | false => simpa [opAppend, hd] using hfresh
     | true =>
       simp only [opAppend, hd, Bool.not_true, Bool.false_eq_true, if_false, hoff, bind, Except.bind]
-      have : ¬ ((x.data.length < 6 || c.data.length < off) = true) := by simp; omega
-      rw [if_neg this, idx_ok _ x.data 5 (by omega)]
-      rfl
+      have : ¬ ((x.data.length < 6 || c.data.length < 6 + hdr.length) = true) := by simp; omega
+      rw [if_neg this, s'.idx5]
+      simp only [pure, Except.pure]
+      rw [s'.drop6]
+      exact good_of_eq _ _ _ _ (le32 _) 0 fl' hdr' _ (le32_length _) s'.ok (by simp only [List.append_assoc]; rfl)
 
-theorem opPush_no_panic (cx : Ctx) (cur : Option Cell) (c : Cmd) (ho : OffsetOK c) (h6 : 6 ≤ c.data.length) :
-    isPanic (opPush cx cur c) = false := by
-  obtain ⟨off, hoff, hle⟩ := ho
-  have hfresh : isPanic (do
+theorem opShift_good (cx : Ctx) (cur : Option Cell) (c : Cmd) (hc : CmdSane c) (hcur : CellSane cur) :
+    Good (opShift cx cur c) := by
+  obtain ⟨hdr, v, s, hoff⟩ := hc
+  simp only [opShift, hoff, bind, Except.bind]
+  cases cur with
+  | none => exact good_ok _ trivial
+  | some x =>
+    simp only
+    split
+    · exact good_ok _ hcur
+    · obtain ⟨fl', hdr', v', s'⟩ := hcur
+      have hlen' := s'.length
+      simp only [s'.cellOff]
+      rw [if_pos (by omega), s'.idx5]
+      simp only [pure, Except.pure]
+      have e1 : 6 + hdr'.length - 6 = hdr'.length := by omega
+      rw [e1, s'.hdr, s'.dropOff]
+      exact good_of_eq _ _ _ _ (le32 _) 0 fl' hdr' _ (le32_length _) s'.ok (by simp only [List.append_assoc]; rfl)
+
+theorem opPush_good (cx : Ctx) (cur : Option Cell) (c : Cmd) (hc : CmdSane c) (hcur : CellSane cur) :
+    Good (opPush cx cur c) := by
+  obtain ⟨hdr, v, s, hoff⟩ := hc
+  have hlen := s.length
+  have hfresh : Good (do
         let b5 ← idx .pushBounds c.data 5
         let off ← cmdOff c
         if off > c.data.length then (panic .pushBounds : M (Option Cell)) else
         pure (some ⟨le32 c.data.length ++ [0, (b5 &&& 0xf8) ||| fARRAY] ++ (c.data.drop 6).take (off - 6)
-            ++ le32 (c.data.length - off) ++ c.data.drop off, [], PUSH, cx.fromAof⟩)) = false := by
-    simp [idx_ok _ c.data 5 (by omega), hoff, bind, Except.bind, Nat.not_lt.mpr hle, pure, Except.pure, isPanic]
+            ++ le32 (c.data.length - off) ++ c.data.drop off, [], PUSH, cx.fromAof⟩)) := by
+    simp only [s.idx5, hoff, bind, Except.bind]
+    rw [if_neg (by omega)]
+    simp only [pure, Except.pure]
+    have e1 : 6 + hdr.length - 6 = hdr.length := by omega
+    rw [e1, s.hdr]
+    exact good_of_eq _ _ _ _ (le32 _) 0 ((c.flag &&& 0xf8) ||| fARRAY) hdr _ (le32_length _)
+      (hdrOK_flag _ _ _ (flag_push_prop _) s.ok) (by simp only [List.append_assoc]; rfl)
   cases cur with
   | none => simpa [opPush] using hfresh
   | some x =>
     cases hd : (x.hasData && x.isArray) with
     | false => simpa [opPush, hd] using hfresh
     | true =>
-      have harr : x.isArray = true := by
-        cases h1 : x.isArray with
-        | true => rfl
-        | false => simp [h1] at hd
-      have hx : 6 ≤ x.data.length := by
-        simp [Cell.isArray] at harr; exact harr.1
+      obtain ⟨fl', hdr', v', s'⟩ := hcur
       simp only [opPush, hd, Bool.not_true, Bool.false_eq_true, if_false, hoff, bind, Except.bind]
-      rw [if_neg (Nat.not_lt.mpr hle), idx_ok _ x.data 5 (by omega)]
-      rfl
+      rw [if_neg (by omega), s'.idx5]
+      simp only [pure, Except.pure]
+      rw [s'.drop6]
+      exact good_of_eq _ _ _ _ (le32 _) 0 ((fl' &&& 0xf8) ||| fARRAY) hdr' _ (le32_length _)
+        (hdrOK_flag _ _ _ (flag_push_prop _) s'.ok) (by simp only [List.append_assoc]; rfl)
 
-theorem opIncr_no_panic (cx : Ctx) (cur : Option Cell) (c : Cmd) (ho : OffsetOK c) (_h6 : 6 ≤ c.data.length)
-    (h : (∃ off, cmdOff c = .ok off ∧ c.data.length = off + 8) ∨ cur ≠ none) : isPanic (opIncr cx cur c) = false := by
-  obtain ⟨off, hoff, hle⟩ := ho
-  simp only [opIncr, hoff, bind, Except.bind]
-  by_cases h8 : c.data.length = off + 8
-  · rw [if_pos h8, idx_ok _ c.data 5 (by omega)]; rfl
-  · rw [if_neg h8]
-    cases cur with
-    | none =>
-      rcases h with ⟨o, ho', hl⟩ | h
-      · rw [hoff] at ho'; cases ho'; exact absurd hl h8
-      · exact absurd rfl h
-    | some x =>
-      simp only
-      by_cases ho6 : cellOff x.data ≤ 6
-      · rw [if_pos ho6]; rfl
-      · rw [if_neg ho6]
-        have : 8 ≤ x.data.length := by
-          unfold cellOff at ho6
-          by_cases hl : x.data.length < 8
-          · simp [hl] at ho6
-          · omega
-        rw [idx_ok _ x.data 5 (by omega)]; rfl
-
-/-- SHIFT never panics exactly when the count fits into the VALUE (the Go code clamps against the whole frame). -/
-theorem opShift_no_panic (cx : Ctx) (cur : Option Cell) (c : Cmd) (off : Nat) (hoff : cmdOff c = .ok off)
-    (hfit : ∀ x, cur = some x → x.hasData = true → cellOff x.data + readAt c.data off 4 ≤ x.data.length) :
-    isPanic (opShift cx cur c) = false := by
-  simp only [opShift, hoff, bind, Except.bind]
+theorem opPop_good (cx : Ctx) (cur : Option Cell) (c : Cmd) (hc : CmdSane c) (hcur : CellSane cur) :
+    Good (opPop cx cur c) := by
+  obtain ⟨hdr, v, s, hoff⟩ := hc
+  simp only [opPop, hoff, bind, Except.bind]
   cases cur with
-  | none => rfl
+  | none => exact good_ok _ trivial
   | some x =>
     simp only
-    by_cases hc : (!(x.hasData && decide (0 < readAt c.data off 4))) = true
-    · rw [if_pos hc]; rfl
-    · rw [if_neg hc]
-      have hd : x.hasData = true := by
-        cases h1 : x.hasData with
-        | true => rfl
-        | false => simp [h1] at hc
-      have hf := hfit x rfl hd
-      have hle : ¬ (readAt c.data off 4 > x.data.length) := by omega
-      rw [if_neg hle, if_neg (by omega)]
-      have : 6 ≤ cellOff x.data := by
-        unfold cellOff; split
-        · omega
-        · split <;> omega
-      rw [idx_ok _ x.data 5 (by omega)]; rfl
+    split
+    · exact good_ok _ hcur
+    · obtain ⟨fl', hdr', v', s'⟩ := hcur
+      have hlen' := s'.length
+      simp only [s'.cellOff]
+      rw [if_neg (by omega)]
+      simp only [pure, Except.pure]
+      obtain ⟨b4, hd4⟩ := s'.drop4 x.extra
+      have e1 : 6 + hdr'.length - 4 = hdr'.length + 2 := by omega
+      rw [hd4, e1]
+      simp only [List.take_succ_cons]
+      rw [take_left' _ _ _ rfl]
+      exact good_of_eq _ _ _ _ (le32 _) b4 fl' hdr' _ (le32_length _) s'.ok (by simp only [List.append_assoc]; rfl)
 
-/-- …and it does panic whenever a positive count exceeds the value length. -/
-theorem opShift_beyond_panics (cx : Ctx) (x : Cell) (c : Cmd) (off : Nat) (hoff : cmdOff c = .ok off)
-    (hd : x.hasData = true) (hpos : 0 < readAt c.data off 4)
-    (hbeyond : x.data.length < cellOff x.data + readAt c.data off 4) :
-    opShift cx (some x) c = .error ⟨.shiftBounds⟩ := by
-  simp only [opShift, hoff, bind, Except.bind, hd, hpos, decide_true, Bool.and_self, Bool.not_true, Bool.false_eq_true, if_false]
-  have h6 : 6 ≤ cellOff x.data := by
-    unfold cellOff; split
-    · omega
-    · split <;> omega
-  by_cases hbig : readAt c.data off 4 > x.data.length
-  · rw [if_pos hbig, if_pos (by omega)]; rfl
-  · rw [if_neg hbig, if_pos (by omega)]; rfl
+theorem procOp_good (cx : Ctx) (cur : Option Cell) (c : Cmd) (hc : CmdSane c) (hcur : CellSane cur) :
+    Good (procOp cx cur c) := by
+  unfold procOp
+  split
+  · exact opSet_good cx cur c hc hcur
+  split
+  · exact opUnset_good cx cur hcur
+  split
+  · exact opIncr_good cx cur c hc hcur
+  split
+  · exact opAppend_good cx cur c hc hcur
+  split
+  · exact opShift_good cx cur c hc hcur
+  split
+  · exact opExecute_good cx cur c hc hcur
+  split
+  · exact opPush_good cx cur c hc hcur
+  split
+  · exact opPop_good cx cur c hc hcur
+  · exact good_ok _ hcur
 
-end Slock.Value
 
-namespace Slock.Value
+theorem pipeFinish_sane (pre cur : Option Cell) (h : CellSane cur) : CellSane (pipeFinish pre cur) := by
+  unfold pipeFinish
+  cases cur with
+  | none => trivial
+  | some k =>
+    simp only
+    split <;> (split <;> exact h)
 
-theorem processFrame_short_panics (cx : Ctx) (cur : Option Cell) (frame : Bytes) (h : frame.length < 6) :
-    isPanic (processFrame cx cur frame) = true := by
-  have := fromOriginBytes_short frame [] h
+theorem pipeLoop_good (rec : Option Cell → Cmd → M (Option Cell)) (L : Nat)
+    (hrec : ∀ cur c, CmdSane c → c.data.length ≤ L → CellSane cur → Good (rec cur c))
+    (pre : Option Cell) (extra : Bytes) (hpre : CellSane pre) :
+    ∀ (fuel : Nat) (rem : Bytes) (cur : Option Cell), rem.length ≤ L → CellSane cur →
+      Good (pipeLoop rec pre extra fuel rem cur) := by
+  intro fuel
+  induction fuel with
+  | zero => intro rem cur _ hc; exact good_ok _ hc
+  | succ n ih =>
+    intro rem cur hL hc
+    unfold pipeLoop
+    split
+    · exact good_ok _ hc
+    · simp only
+      split
+      · exact good_ok _ hc
+      · rename_i hlen4 hover
+        split
+        · exact good_ok _ hc
+        · rename_i c hparse
+          obtain ⟨hdata, _, hsane⟩ := parseFrame_sane _ _ c hparse
+          have hcl : c.data.length ≤ L := by
+            rw [hdata, List.length_take]; omega
+          have hc1 : CellSane (if c.ctype ≠ EXECUTE then pre else cur) := by
+            split
+            · exact hpre
+            · exact hc
+          obtain ⟨cur2, h2, hs2⟩ := hrec _ c hsane hcl hc1
+          simp only [bind, Except.bind, h2]
+          exact ih _ _ (by rw [List.length_drop]; omega) hs2
+
+theorem proc_good : ∀ (fuel : Nat) (cx : Ctx) (cur : Option Cell) (c : Cmd),
+    c.data.length < fuel → CmdSane c → CellSane cur → Good (proc fuel cx cur c) := by
+  intro fuel
+  induction fuel with
+  | zero => intro cx cur c h; omega
+  | succ n ih =>
+    intro cx cur c hlen hsane hcur
+    unfold proc
+    split
+    · exact good_ok _ hcur
+    · split
+      · obtain ⟨hdr, v, s, hoff⟩ := hsane
+        have hl := s.length
+        simp only [hoff, bind, Except.bind]
+        rw [if_neg (by omega)]
+        have hb : (c.data.drop (6 + hdr.length)).length < n := by rw [List.length_drop]; omega
+        obtain ⟨cur', h1, hs1⟩ := pipeLoop_good (proc n cx) (c.data.drop (6 + hdr.length)).length
+          (fun cur0 c0 hs0 hl0 hc0 => ih cx cur0 c0 (by omega) hs0 hc0) cur c.extra hcur _ _ cur (Nat.le_refl _) hcur
+        rw [h1]
+        exact good_ok _ (pipeFinish_sane _ _ hs1)
+      · exact procOp_good cx cur c hsane hcur
+
+theorem processFrame_good (cx : Ctx) (cur : Option Cell) (frame : Bytes) (hcur : CellSane cur) :
+    Good (processFrame cx cur frame) := by
   unfold processFrame
-  cases hh : fromOriginBytes frame [] with
-  | error e => rfl
-  | ok c => rw [hh] at this; cases this
+  split
+  · exact good_ok _ hcur
+  · rename_i c hparse
+    obtain ⟨hdata, _, hsane⟩ := parseFrame_sane _ _ c hparse
+    exact proc_good _ cx cur c (by rw [hdata]; omega) hsane hcur
+
+theorem runAll_good (cx : Ctx) : ∀ (frames : List Bytes) (cur : Option Cell), CellSane cur → Good (runAll cx cur frames) := by
+  intro frames
+  induction frames with
+  | nil => intro cur h; exact good_ok _ h
+  | cons f fs ih =>
+    intro cur h
+    obtain ⟨cur', h1, hs1⟩ := processFrame_good cx cur f h
+    simp only [runAll, bind, Except.bind, h1]
+    exact ih cur' hs1
+
+theorem good_no_panic (r : M (Option Cell)) (h : Good r) : isPanic r = false := by
+  obtain ⟨c, hc, _⟩ := h; rw [hc]; rfl
+
+/-- every well-formed cell of the refinement theorems is sane -/
+theorem cellWF_sane (cur : Option Cell) (h : CellWF cur) : CellSane cur := by
+  cases h with
+  | none => trivial
+  | unset aof => exact unsetCell_sane aof
+  | data g ex ct aof h0 hgw ha hct =>
+    obtain ⟨a, b, c, d, he⟩ := encode_cons g
+    refine ⟨g.flag, propHdr g.props, g.payload, ⟨⟨a, b, c, d, _, he⟩, ?_⟩⟩
+    cases hp : g.props with
+    | none => exact Or.inr ⟨by rw [hgw.flag_props, hp]; rfl, rfl⟩
+    | some p =>
+      have hl := hgw.props_len p hp
+      refine Or.inl ⟨by rw [hgw.flag_props, hp]; rfl, (p.length % 256).toUInt8, (p.length / 256 % 256).toUInt8, p, ?_, ?_⟩
+      · simp [propHdr, le16, leN]
+      · rw [toUInt8_toNat_mod, toUInt8_toNat_mod]; omega
 
 /-- observation helpers for the concrete witnesses -/
 def okVal : M (Option Cell) → Option Val
